@@ -52,13 +52,16 @@ int main(int argc, char** argv)
         if (argc < 5) return 2;
         g_simopts.preload_dir = argv[4];
         g_simopts.defer_load = true;
+        g_simopts.coins_batch_bytes = argc > 5 ? std::stoull(argv[5]) : 64;   // the recovery's own flush is split into partial batches too
         auto sim = MakeSim(g_simopts);
+        const std::string datadir = fs::PathToString(sim->m_args.GetDataDirNet());
+        Mark("VF:preload:end");     // everything before this point only set up the data directory from the image
         World w(std::move(sim), /*dry_run=*/true);
         const UniValue& st = beh["steps"];
         for (size_t i = 0; i < st.size(); ++i) w.Apply(st[i]["a"]);    // learn the block ids of the crashed run
         InstallAbortHandlers();
         const std::string err = w.sim->TryLoad();
-        if (!err.empty()) { Emit(Obj({{"kind", "recovered"}, {"load", err}})); std::cout.flush(); _exit(0); }
+        if (!err.empty()) { Emit(Obj({{"kind", "recovered"}, {"load", err}, {"datadir", datadir}})); std::cout.flush(); _exit(0); }
         UniValue pre;
         if (!w.sim->Tip()) {
             // an empty coins database: the node starts from nothing and re-connects its stored blocks
@@ -76,7 +79,7 @@ int main(int argc, char** argv)
         const bool act = w.sim->cm().ActiveChainstate().ActivateBestChain(vs);
         UniValue post = w.Project()["obs"];
         post.pushKV("height", WITH_LOCK(cs_main, return w.sim->cm().ActiveChain().Height()));
-        Emit(Obj({{"kind", "recovered"}, {"load", "ok"}, {"activate", act}, {"pre", pre}, {"post", post}}));
+        Emit(Obj({{"kind", "recovered"}, {"load", "ok"}, {"activate", act}, {"pre", pre}, {"post", post}, {"datadir", datadir}}));
         std::cout.flush();
         _exit(0);
     }
